@@ -47,6 +47,20 @@ fn support(ctx: usize) -> Vec<ProjFile> {
     v.push(mk("unused", "d", ItemKind::Enum, "Unused"));
     v.push(mk("xq", "d", ItemKind::Enum, "XQ"));
     v.push(mk("part", "d.e", ItemKind::Interface, "Part"));
+    // a neighbour with imports and declarations of the same simple names (used and unused):
+    // nothing a pass remembers from it may reach the observed file
+    let mut nb = Item::new(ItemKind::Parcelable, "Neighbour");
+    for (i, t) in ["Used", "XQ", "Q", "Ghost"].iter().enumerate() {
+        nb.members.push(Member::Field(Field::new(Ty::custom(t), &format!("f{i}"), None)));
+    }
+    let mut nd = Document::new("nb", nb);
+    for i in ["zz.Used", "zz.XQ", "zz.Deep", "zz.Unused", "zz.Q2", "zz.R"] {
+        nd.imports.push(Import::new(i));
+    }
+    for n in ["Q", "Ghost", "Part"] {
+        nd.decls.push(Decl::new(n));
+    }
+    v.push(ProjFile::from_doc("neighbour", nd));
     v
 }
 
